@@ -189,7 +189,7 @@ func main() {
 		}
 		return
 	}
-	n := 40
+	n := 120
 	if o.Thorough() {
 		n = 1200
 	}
